@@ -623,10 +623,13 @@ class SVG:
         self._resolve_use(clip_path_el)
 
         transform = _element_transform(clip_path_el, transform)
-        # clip-rule is inherited: set on the clipPath it holds for every child without its own
-        inherited = {
-            k: clip_path_el.attrib[k] for k in ("clip-rule",) if k in clip_path_el.attrib
-        }
+        # clip-rule is inherited: set on the clipPath or on any of its ancestors it
+        # holds for every child without its own (the nearest one wins)
+        inherited = {}
+        for el in itertools.chain((clip_path_el,), clip_path_el.iterancestors()):
+            if "clip-rule" in el.attrib:
+                inherited["clip-rule"] = el.attrib["clip-rule"]
+                break
         clip_paths = [
             from_element(e, **inherited).apply_transform(
                 _element_transform(e, transform)
